@@ -42,6 +42,13 @@ fn prog(name: &str, setup: Vec<TOp>, threads: Vec<Vec<TOp>>) -> Arc<Prog> {
     })
 }
 
+/// the same with a memtable that never rotates
+fn prog_big(name: &str, setup: Vec<TOp>, threads: Vec<Vec<TOp>>) -> Arc<Prog> {
+    let mut p = (*prog(name, setup, threads)).clone();
+    p.cfg = Cfg::new(4 << 20, 300, 16, true);
+    Arc::new(p)
+}
+
 use TOp::*;
 
 /// The sharp programs: one per unlocked window named by the property's anchors.
@@ -67,6 +74,11 @@ pub fn c05_sharp() -> Vec<Arc<Prog>> {
         prog("put||del||get", vec![Put(0, 1, 8)], vec![vec![Put(0, 2, 8)], vec![Del(0)], vec![Get(0)]]),
         // iterator creation vs rotating writer
         prog("iterscan||put+put", vec![Put(0, 1, 8)], vec![vec![IterScan], vec![Put(1, 2, 8), Put(0, 3, 8)]]),
+        // reader of a later key while an earlier key is being linked into the memtable skip list
+        // (scheduling points of the verification copy of the skip-list crate: memtable.link)
+        prog_big("get-b||put-a", vec![Put(1, 1, 8)], vec![vec![Get(1)], vec![Put(0, 2, 8)]]),
+        prog_big("iterscan||put-a", vec![Put(1, 1, 8)], vec![vec![IterScan], vec![Put(0, 2, 8)]]),
+        prog_big("get-b+get-b||put-a+put-a", vec![Put(0, 1, 8), Put(1, 2, 8)], vec![vec![Get(1), Get(1)], vec![Put(0, 3, 8), Put(0, 4, 8)]]),
         // snapshot read vs writer + flush
         prog("snapread||put+flush", vec![Put(0, 1, 8)], vec![vec![SnapRead(vec![0, 1])], vec![Put(0, 2, 8), Flush]]),
     ]
